@@ -276,10 +276,10 @@ def handleOpt (toks : List String) : Option String :=
       match rest with
       | [hex] =>
         let bytes ← parseHex? hex
-        match runCRS rs ⟨bytes.toArray, 0⟩ with
-        | none => some "err"
-        | some (polys, st) =>
-          some ("|".intercalate (polys.flatten.map showMat) ++ " " ++ toString (be64 st.bytes st.pos))
+        match runCRS rs bytes with
+        | .ok (polys, rest) =>
+          some ("|".intercalate (polys.flatten.map showMat) ++ " " ++ toString (Sampler.beNat (rest.take 8)))
+        | _ => some "err"
       | _ => none
   | _ => none
 
